@@ -31,6 +31,8 @@ def one_writer(ctx, r):
             done.close()
         if rc != 0 or "err" in pre or "err" in post:
             return
+        if any(s_["call"] == "ftruncate" and s_["obj"] == "log" for s_ in steps):
+            ctx.tie_broken("T3 writer never shrinks the live log in place", {"writer": label, "program": strace.summarize(steps)})
         allowed = [graph_view(pre["graph"]), graph_view(post["graph"])]
         pts = strace.kill_points(steps)
         ks = list(range(1, len(pts))) if not ctx.quick else sorted(set([1, 2] + [i for i, s in enumerate(steps, 1) if s["call"] in ("write", "renameat", "rename", "fsync", "flock", "openat")]))
@@ -72,6 +74,89 @@ def one_writer(ctx, r):
         base.close()
 
 
+def one_reader(ctx, r):
+    """the converse schedule: a *reader* is parked after each of its own calls on the log (open, every read, close), a writer runs to completion
+    meanwhile, the reader goes on — it must succeed and show the state before or after that writer.  Half of the stores end in the torn
+    fragment of a killed writer (which the reader skips and the writer repairs)."""
+    base, v, trace = crash.build_state(ctx, r, 5 + r.n(8))
+    try:
+        torn = r.p(55)
+        if torn:
+            frag = r.pick([b'{"type":"state","ts":"2026-01-01T00:00:00Z","data":{"id":"', b'{"type":"new_task","ts":"2026-01-01T00:00:00.5Z","data":{"id":"QQQQQQ","uuid":"u","title":"half', b'{'])
+            with open(base.log_path(), "ab") as f:
+                f.write(frag)
+            trace = trace + [{"edit": "torn fragment of a killed writer appended to the log (no newline): %r" % frag[:40]}]
+        pre = base.graph()
+        if "err" in pre:
+            return
+        v.update(pre["graph"])
+        label, wargv, wstdin = crash.multi_event_command(r, v) if r.p(60) else ("new-task", ["--json", "new", "task"], b'{"title":"w"}')
+        wenv = {"VERIF_RAND": str(r.next() % (1 << 40))}
+        done = crash.clone(base)
+        try:
+            wr = done.exec(wargv, wstdin, env=wenv)
+            post = done.graph()
+        finally:
+            done.close()
+        if wr["exit"] != 0 or "err" in post:
+            return
+        some_id = r.pick(v.tasks) if v.tasks else "ZZZZZZ"
+        rargv = r.pick([["--json", "list", "--all"], ["--json", "list", "--all"], ["--json", "show", some_id], ["list", "--all"]])
+        def view_of(res, g=None):
+            if rargv[:3] == ["--json", "list", "--all"]:
+                return sorted((i["id"], i["state"], i.get("claimed_by", ""), i["title"], i.get("epic_id", "")) for i in json.loads(res["stdout"]))
+            if rargv[1] == "show":
+                x = json.loads(res["stdout"]); x = x.get("epic", x) if isinstance(x.get("epic"), dict) else x
+                return (x["id"], x["state"], x["claimed_by"], x["title"], x["body"], tuple(x["deps"] or []))
+            return None
+        refs = []
+        for g_ in (base, None):
+            t = crash.clone(base)
+            try:
+                if g_ is None:
+                    t.exec(wargv, wstdin, env=wenv)
+                rr = t.exec(rargv)
+                refs.append(view_of(rr) if rr["exit"] == 0 else ("exit", rr["exit"]))
+            finally:
+                t.close()
+        solo = crash.clone(base)
+        try:
+            rc, _, _, rsteps = strace.run(solo, rargv)
+        finally:
+            solo.close()
+        if rc != 0 and rargv[1] != "show":
+            ctx.violation("C13 reader fails on a store with a torn tail" if torn else "C13 reader fails", "%s exits %s" % (rargv, rc), {"trace": trace}); return
+        pts = strace.kill_points(rsteps)
+        for k in range(1, len(pts) + 1):
+            c = crash.clone(base)
+            pk = None
+            try:
+                pk = sched.Parked(c, rargv, None, pts[k - 1])
+                if not pk.parked:
+                    pk.wait(5); pk = None
+                    continue
+                at = (strace.summarize(pk.steps_at_park) or ["-"])[-1]
+                wres = c.exec(wargv, wstdin, env=wenv)
+                res = pk.resume(); pk = None
+                if res.get("tracer_error"):
+                    ctx.count(1, key=("skipped: tracer error",)); continue
+                step = {"reader": rargv, "reader_parked_after": at, "its_calls_so_far": len(res["steps"]), "writer": wargv if sum(len(a) for a in wargv) < 300 else wargv[:3] + ["…"],
+                        "writer_stdin": None if wstdin is None else wstdin.decode("utf-8", "replace")[:200], "writer_env": wenv, "writer_exit": wres["exit"]}
+                ctx.count(1, key=("reader-parked", rargv[1] if rargv[0] == "--json" else "list(human)", at, label, torn))
+                if res["exit"] != refs[0][1] if isinstance(refs[0], tuple) and refs[0][:1] == ("exit",) else res["exit"] != 0:
+                    ctx.violation("C13 reader fails while %s runs (reader parked mid-read%s)" % (label, ", torn tail" if torn else ""),
+                                  "%s parked after %s, writer ran, reader resumed: exit %s %s" % (" ".join(rargv), at, res["exit"], res["stderr"].strip()[:200]), {"trace": trace + [step]}); return
+                if res["exit"] == 0 and view_of(res) is not None and view_of(res) not in refs:
+                    ctx.violation("C13 reader sees a state the store never passed through (reader parked mid-read, %s)" % label,
+                                  "%s parked after %s: output is neither the state before nor after the writer" % (" ".join(rargv), at), {"trace": trace + [step]}); return
+            finally:
+                if pk is not None:
+                    pk.kill()
+                c.close()
+    finally:
+        base.close()
+
+
 def reader_shape(ctx):
     st = cmdrun.Store(ctx.ergo, ctx.go)
     try:
@@ -90,12 +175,15 @@ def reader_shape(ctx):
 def run(ctx):
     import os
     os.environ["GOGC"] = "1"      # stress the Go runtime: collections (and finalizers) inside every lock section
-    framework.check_facts(ctx, ctx.facts, ["with_lock", "lock_sites", "writer_calls"])
+    framework.check_facts(ctx, ctx.facts, ["with_lock", "lock_sites", "writer_calls", "truncate_sites"])
     reader_shape(ctx)
     r = gen.Rng(ctx.seed * 1000003 + 13)
     for i in range(7 if ctx.quick else 120):
         one_writer(ctx, r.fork())
-    ctx.cov["rule"] = ("for generated pre-states × writer kinds (claim, set, create-with-state, sequence chain, prune --yes, plan, compact): the real writer is parked (strace SIGSTOP injection) "
+    for i in range(6 if ctx.quick else 100):
+        one_reader(ctx, r.fork())
+    ctx.cov["rule"] = ("readers parked after each of their own calls on the log (open/read/close) while a writer runs to completion, on logs with and without a torn tail; "
+                       "for generated pre-states × writer kinds (claim, set, create-with-state, sequence chain, prune --yes, plan, compact): the real writer is parked (strace SIGSTOP injection) "
                        "right after each of its system calls on the store (quick: after every open/flock/write/fsync/rename), `list --json --all/--epics` run meanwhile must succeed and show "
                        "exactly the state before or after the command; then the writer is resumed and must finish; reader programs traced (no flock, log opened once read-only)")
     ctx.assumptions += ["one write(2) of a batch is seen by a concurrent reader entirely or not at all (page-cache atomicity of a single append on a local file system)"]
